@@ -653,6 +653,7 @@ var adapterPkg = map[string][2]string{
 	"regexify":   {"services/checker/static", "TestVerifReplayRegexify"},
 	"process_vvec": {"services/process/standard", "TestVerifReplayProcessVVec"},
 	"process_f5":   {"services/process/standard", "TestVerifReplayProcessF5"},
+	"import_merge": {".", "TestVerifReplayImportMerge"},
 }
 
 // runReplay injects the adapter as an in-package test through -overlay (nothing is written to the repo).
